@@ -114,9 +114,28 @@ func RemoveInputParam(callable syntax.Callable, param string, asts []*syntax.Ast
 	return removeInputParam(match, callable, param, asts, nil)
 }
 
+// removesInput returns true if the set already contains an edit removing the
+// given input parameter from the given callable.
+func (edits editSet) removesInput(callable syntax.Callable, param string) bool {
+	for _, e := range edits {
+		if r, ok := e.(*removeCallableInput); ok && r.Param == param &&
+			r.Callable.GetId() == callable.GetId() &&
+			r.Callable.File().FullPath == callable.File().FullPath {
+			return true
+		}
+	}
+	return false
+}
+
 func removeInputParam(match matcher,
 	callable syntax.Callable, param string,
 	asts []*syntax.Ast, edits editSet) editSet {
+	if edits.removesInput(callable, param) {
+		// Already scheduled.  Without this check, a pipeline input which
+		// nothing references any more is found again while processing its
+		// own removal, recursing forever.
+		return edits
+	}
 	modified := make(map[decId]struct{})
 	edits = append(edits, &removeCallableInput{
 		Callable: callable,
